@@ -21,7 +21,9 @@ D = {"s": (1.0, 2, 3), "v1": [(1.0, 2, 3)], "v2": [(1.0, 2, 3), (0, -1, 0.5)],
 RV = np.array([(0.2, -0.4, 0.1), (0, 0.3, 0.3), (1.0, 0, 0.2)])
 ROT = {"s": RV[0], "v1": RV[:1], "v2": RV[:2], "v3": RV, "None": None}   # None = the documented unit rotation (scalar input)
 AN = {"N": None, "0": 0, "s": (1.0, 1, 1), "v1": [(1.0, 1, 1)], "v2": [(1.0, 1, 1), (0, 2, 0)],
-      "v3": [(1.0, 1, 1), (0, 2, 0), (-1, 0, 1)]}
+      "v3": [(1.0, 1, 1), (0, 2, 0), (-1, 0, 1)],
+      # numpy arrays as anchors, also all-zero ones: the shape decides between scalar and vector input, not the values
+      "zs": np.zeros(3), "z1": np.zeros((1, 3)), "z2": np.zeros((2, 3)), "nd2": np.array([(1.0, 1, 1), (0, 2, 0)])}
 STARTS = ["auto"] + list(range(-6, 7))
 STARTS_RED = ["auto", -5, -1, 0, 1, 5]
 PS = {"p1": (5.0, 5, 5), "p1v": [(5.0, 5, 5)], "p2": [(5.0, 5, 5), (6, 6, 6)],
@@ -55,7 +57,7 @@ def full_alphabet():
 def reduced_alphabet():
     return [op for op in full_alphabet()
             if op[0] in ("pos", "ori", "reset", "poslive", "orilive") or (op[-1] in STARTS_RED and op[1] in ("s", "v2")
-                                                     and (op[0] == "move" or op[2] in ("N", "0", "s", "v2")))]
+                                                     and (op[0] == "move" or op[2] in ("N", "0", "s", "v2", "z2")))]
 
 
 def Rot(rv):
@@ -422,6 +424,47 @@ def regime_task(task):
                         dp = float(np.max(np.abs(Pi - mp)))
                         if dp > tol or float(np.max(np.abs(Mi - mm))) > TOL:
                             viols.append((name, lever, rkey, st, form, f"position off by {dp:.3g} (lever {size:.3g}, tolerance {tol:.3g})"))
+            # translations and assignments by a small fraction of the object size: nothing is too small to matter
+            dsc = np.array((0.6, -0.4, 0.8)) * lever * scale
+            dvec = np.array([(0.6, -0.4, 0.8), (-0.2, 0.5, 0.1)]) * lever * scale
+            for form in ("move_s", "move_v", "set_shifted", "iadd", "set_same_plus_one_step"):
+                for st in (("auto", 0) if form.startswith("move") else (None,)):
+                    o = mk("Sensor", P, M0)
+                    m = PathModel(P, M0)
+                    n += 1
+                    try:
+                        if form == "move_s":
+                            o.move(dsc, start=st)
+                            m.move(dsc, st)
+                        elif form == "move_v":
+                            o.move(dvec, start=st)
+                            m.move(dvec, st)
+                        elif form == "set_shifted":
+                            new = np.array(o.position) + dsc
+                            o.position = new
+                            m.set_position(new)
+                        elif form == "iadd":
+                            new = np.array(o.position) + dsc
+                            o.position += dsc
+                            m.set_position(new)
+                        else:   # a scan: 20 assignments, each one small step further
+                            cur = np.array(o.position)
+                            for _ in range(20):
+                                cur = cur + dsc
+                                o.position = cur
+                            m.set_position(cur)
+                    except Exception as e:
+                        viols.append((name, lever, "-", st, form, f"raised {type(e).__name__}"))
+                        continue
+                    Pi, Mi = read(o)
+                    mp, mm = m.arrays()
+                    if len(Pi) != len(mp):
+                        viols.append((name, lever, "-", st, form, f"path length {len(Pi)} != model {len(mp)}"))
+                        continue
+                    dp = float(np.max(np.abs(Pi - mp)))
+                    tol = 4e-16 * (abs(shift) + 10 * scale) * 50
+                    if dp > tol:
+                        viols.append((name, lever, "-", st, form, f"position off by {dp:.3g} (step {lever * scale:.3g}, tolerance {tol:.3g})"))
     return n, viols
 
 
